@@ -440,7 +440,7 @@ BIG_EXACT = [[2 ** 53, 1, 0], [2 ** 62, 2 ** 62, 1], [2 ** 62, 2 ** 62, 2 ** 62,
 MUTATIONS = ["identical", "name", "dests", "dests_reorder", "unit", "colname", "colorder", "cell", "dtype",
              "add_row", "del_row", "add_col", "del_col", "missing_flavour", "missing_dtype", "transposed", "origin",
              "rowswap", "number_type_cell", "subclass", "index", "non_table", "unit_swap", "resolution", "aware_vs_naive",
-             "dt_as_int", "display_one_side", "display_both", "copywrap"]
+             "dt_as_int", "display_one_side", "display_both", "copywrap", "near_cell"]
 
 
 def mutate(rng, spec, kind):
@@ -496,7 +496,8 @@ def mutate(rng, spec, kind):
         return None, None
     want = {"dtype": ("int", "float", "Int64", "dt_utc", "dt_cph"), "missing_dtype": ("Int64", "string", "text"),
             "missing_flavour": ("object",), "number_type_cell": ("object",), "resolution": tuple(RES),
-            "aware_vs_naive": ("dt_s", "dt_ms", "datetime"), "dt_as_int": ("dt_ns", "dt_s")}.get(kind)
+            "aware_vs_naive": ("dt_s", "dt_ms", "datetime"), "dt_as_int": ("dt_ns", "dt_s"),
+            "near_cell": ("float", "text", "object")}.get(kind)
     elig = [k for k in range(len(cols)) if want is None or cols[k]["kind"] in want]
     if not elig:
         return None, None
@@ -549,6 +550,24 @@ def mutate(rng, spec, kind):
             c["kind"] = "dt_cph" if c["kind"] == "dt_utc" else "dt_utc"      # the same instants in another time zone
             return s, True
         return None, None
+    if kind == "near_cell":
+        # ONE cell that differs "a little": the next float up / down, or the same text in another Unicode normal form
+        if n == 0:
+            return None, None
+        import math
+        i = rng.randrange(n)
+        base_c = [x for x in spec["cols"] if x["name"] == c["name"]][0]
+        if c["kind"] == "float":
+            x = rng.choice([0.3, 1.0, 0.1, 1e300, 123456.789, -2.5, 5e-324, 1e-300])
+            y = math.nextafter(x, rng.choice([math.inf, -math.inf]))
+        else:
+            x, y = rng.choice([("caf\u00e9", "cafe\u0301"), ("\u00c5", "A\u030a"), ("\u212b", "\u00c5"), ("\ufb01", "fi"),
+                               ("x", "x\u200b"), ("a", "\uff41"), ("1", "\u0661")])
+            if rng.random() < 0.5:
+                x, y = y, x
+        base_c["values"][i] = x           # the base is given the one value, the mutant its near twin
+        c["values"][i] = y
+        return s, False
     if kind in ("display_one_side", "display_both"):
         # display format / display unit of a column: not header, not cells -> equals must not look at them
         disp = {"display_unit": rng.choice(["mm", "km", c["unit"]]), "display_format": rng.choice([2, 0, "14.3e", ".1f"])}
@@ -675,6 +694,8 @@ def scalar_pool():
             pd.Timestamp("2020-01-01T13:00:00+01:00"), datetime.datetime(2020, 1, 1, 12, tzinfo=datetime.timezone.utc),
             pd.Timestamp("2020-01-01T12:00:00", tz="Europe/Copenhagen"), pd.Timestamp("2020-01-01T12:00:00"),
             datetime.datetime(2020, 1, 1, 12),
+            # near twins: next floats, Unicode normal forms
+            0.3, 0.1 + 0.2, 1.0000000000000002, "caf\u00e9", "cafe\u0301", "\u212b", "\u00c5",
             # other resolutions, far years, sub-second parts, odd offsets, epoch integers
             pd.Timestamp("2020-01-01T12:00:00").as_unit("s"), pd.Timestamp("2020-01-01T12:00:00").as_unit("ns"),
             pd.Timestamp("3000-06-01T12:00:00"), pd.Timestamp("0001-01-01T00:00:00"), datetime.datetime(3000, 6, 1, 12),
@@ -814,7 +835,7 @@ def gen_history(rng, base):
 
 LADDER = [60, 63, 64, 65, 127, 128, 129, 255, 256, 257, 1000, 1023, 1024, 1025, 2047, 2048, 2049, 4095, 4096, 4097,
           8191, 8192, 8193, 20001]
-LADDER_QUICK = [1025, 4097, 8193]        # always: a table above 1024, above 4096 and above 8192 rows
+LADDER_QUICK = [1025, 4097, 8193, 12289]  # always: a table above 1024, above 4096, above 8192 and above 10000 rows
 
 
 def ladder_cases(rng, tier, seed):
@@ -832,8 +853,10 @@ def ladder_cases(rng, tier, seed):
             return {"cls": "Table", "name": "long", "dests": ["all"], "cols": cols, "nrows": n, "index": None,
                     "transposed": False, "origin": ""}
         positions = sorted({p for L in LADDER if L <= n + 1 for p in (L - 2, L - 1, L) if 0 <= p < n} | {0, n - 1})
-        if tier != "thorough" and n < 8193:
-            positions = [p for p in positions if p >= n - 1100]      # the fine sweep is done on the largest table
+        if tier != "thorough" and n != 8193:
+            positions = [p for p in positions if p >= n - 1100]      # the fine sweep is done on the 8193-row table
+        if tier != "thorough" and n > 8193:
+            positions = [n - 1, 10000, 10001]
         small = n <= 1100
         yield {"seed": seed, "index": idx, "mutation": "ladder:identical", "expected": True, "rows": n,
                "a": table(), "b": table(), "nomodel": not small}
@@ -997,7 +1020,7 @@ def run(tier, seed, model_ok, translator, search=False):
     out.count("scalar_comparison_via:" + how)
     out.rule = ("pairs (t, mutate t) for every single-aspect mutation of a random table (0-6 rows, 0-4 columns of "
                 "kinds int/float/bool/str/object/datetime/Int64/Float64/boolean/string with NaN/None/NaT/pd.NA), "
-                "unrelated random pairs from a small and a large space, non-default indexes, histories (compare, edit name / "
+                "unrelated random pairs from a small and a large space, non-default indexes, one cell differing by one ulp / by Unicode normal form, histories (compare, edit name / "
                 "destinations / one unit in place through metadata, Column.unit and Table.units, compare the same "
                 "objects again, edit back, compare), tables reached by re-ordering the columns of an existing "
                 "table's frame (column selection + re-wrap, in-place moves after a consultation) against directly "
